@@ -31,7 +31,7 @@ class D(Driver):
         ("picosvg.svg_types", "SVGPath.remove_overlaps"),
     )
     deciding_monitors = ("pathop", "pathop.shape_level")
-    feature_floors = {"pathop.union.ok": 60, "pathop.intersection.ok": 60, "pathop.difference.ok": 60, "pathop.remove_overlaps.ok": 100,
+    feature_floors = {"refusing.raised.PathOpsError": 5, "pathop.union.ok": 60, "pathop.intersection.ok": 60, "pathop.difference.ok": 60, "pathop.remove_overlaps.ok": 100,
                       "pathop.SVGPath.remove_overlaps.ok": 60, "pathop._do_pathop.ok": 300}
     nt_floor = {"quick": 300, "thorough": 5000}
     time_budget = {"quick": 120, "thorough": 900}
@@ -48,6 +48,8 @@ class D(Driver):
             cs.append(("pipeline_corpus", i, min(nf, i + 10), 0))
         for k in range(4 if tier == "quick" else 60):
             cs.append(("pipeline_gen", seed, k, 6))
+        for k in range(2 if tier == "quick" else 20):
+            cs.append(("refusing", seed, k, 60))
         return cs
 
     def setup_worker(self, tier, seed):
@@ -77,8 +79,55 @@ class D(Driver):
             bump(res["counters"], "pipeline_" + st)
         boolmon.STATE["cap"] = None
 
+    # a legal, finite, closed contour of three cubics looping over itself on which skia's Simplify gives up
+    REFUSED = "M38.8,3.081 C54.3,82.591 91.186,61 51,20.03 C37.4,76 16,70 26,52.778 C85.665,26.1 76,70 10.4,9 Z"
+
+    def _refusing(self, case, res):
+        """Second clause of the statement: when the engine cannot compute an operation an error is raised, not
+        a wrong path returned.  Operands: the contour above, jittered copies of it and random contours of the
+        same kind (three self-overlapping cubics), alone and combined with an ordinary operand."""
+        from picomon.ref import pathgrammar as G
+
+        _, seed, k, n = case
+        rng = random.Random(f"C13-refusing-{seed}-{k}")
+        SP, T = self.SP, self.T
+        base = G.parse(self.REFUSED)
+        for i in range(n):
+            kind = rng.random()
+            if i == 0 or kind < 0.3:
+                o = list(base)
+            elif kind < 0.6:
+                j = 10.0 ** rng.uniform(-6, -1)
+                o = [(c, tuple(v + rng.uniform(-j, j) for v in a)) for c, a in base]
+            else:
+                p0 = (rng.uniform(5, 95), rng.uniform(5, 95))
+                o = [("M", p0)]
+                for _ in range(3):
+                    o.append(("C", tuple(rng.uniform(5, 95) for _ in range(6))))
+                o.append(("Z", ()))
+            rule = rng.choice(("nonzero", "evenodd"))
+            op = rng.choice(("remove_overlaps", "union", "intersection", "difference", "shape_remove_overlaps"))
+            res["evals"] += 1
+            try:
+                if op == "remove_overlaps":
+                    list(SP.remove_overlaps(o, rule))
+                elif op == "shape_remove_overlaps":
+                    T.SVGPath(d=gp.render(o), fill_rule=rule).remove_overlaps(inplace=rng.random() < 0.5)
+                else:
+                    other = gs.rect(rng.uniform(0, 40), rng.uniform(0, 40), rng.uniform(30, 60), rng.uniform(30, 60))
+                    ops = [o, other] if rng.random() < 0.5 else [other, o]
+                    list(getattr(SP, op)(ops, [rule, "nonzero"] if ops[0] is o else ["nonzero", rule]))
+                bump(res["features"], "refusing.answered")
+            except Exception as e:
+                if events.is_harness_exc(e):
+                    raise
+                bump(res["features"], "refusing.raised." + type(e).__name__)
+
     def run_case(self, case):
         res = new_result()
+        if case[0] == "refusing":
+            self._refusing(case, res)
+            return self._collect(res)
         if case[0].startswith("pipeline"):
             self._pipeline(case, res)
             return self._collect(res)
